@@ -190,13 +190,7 @@ def run(ctx):
                     ctx.note("C10.R5", f"raise {cls_} in {f.id} is reachable from _validate (outside the validation module: census only)")
 
     # ---- R6 = C09.R1 -------------------------------------------------------------------------------------
-    ctx.rule("C10.R6", "validator and writer agree on (name, value) hints (= C09.R1)", floor=1)
-    wu, vu = W.funcs("union")[0], V.funcs("union")[0]
-    lw, lv = label_slice(wu), label_slice(vu)
-    if lw is None or lv is None:
-        ctx.unrecognised("C10.R6", "label slices", vu.where(), "tuple arm not found")
-    else:
-        ctx.check("C10.R6", "writer and validator name union branches by the same function", lw["text"] == lv["text"], vu.where(lv["loop"]), f"_validate_union label: {lv['text']!r} vs write_union label: {lw['text']!r}", "everything validate accepts the writers must encode and vice versa: the hint vocabularies differ")
+    ctx.borrow("C09", {"C09.R1": "C10.R6"}, "everything validate accepts the writers must encode and vice versa: the (name, value) hint vocabularies and the guard enabling tuple notation must be the same function on both sides")
 
     # ---- shared ----
     ctx.borrow("C09", {"C09.R2": "C10.R7"}, "validate must reject a (name, value) hint naming no branch exactly as the writer does")
